@@ -1,10 +1,11 @@
 import TLVerif.Udp.SysLemmas
+import TLVerif.Udp.ReleaseLemmas
 /-!
 # C36 (modelled part) — exactly-once, in-order, intact delivery of the sliding-window protocol
 
 Theorems about the executable model `TLVerif/Udp/Window.lean` of the message-level logic of
 pkg/rpc/udp/incoming.go (`receiveMessageChunk`, `moveWindowPrefix`, stream-like hand-over) and
-outgoing.go (`AckChunk`, `AckPrefix`, `ackFrontChunk`, `unrefMessage`), composed with a network that
+outgoing.go (`AckChunk`, `AckPrefix`, `ackFrontChunk`, `unrefMessage` reference counting), composed with a network that
 loses, duplicates and reorders datagrams.  The model is tied to the Go code differentially
 (`udp.rcv` / `udp.snd` case lines drive one real `IncomingConnection` / `OutgoingConnection`).
 
@@ -87,6 +88,15 @@ theorem send_ack_sound (s : Send) (seq p : Nat) :
   obtain ⟨a1, a2, a3⟩ := ackChunk_spec s seq
   obtain ⟨b1, b2, b3⟩ := ackPrefixTo_spec s p
   exact ⟨⟨a3, a2, a1⟩, ⟨b3, b2, b1⟩⟩
+
+/-- **Outgoing message buffers are released exactly once, exactly when fully acknowledged.** After any
+sequence of slicing / `AckChunk` / `AckPrefix` operations, the list of messages handed to the
+deallocator has no duplicates, and a message is in it iff it was sliced and none of its chunks is left
+in the window. -/
+theorem send_release_exactly_once (ops : List SOp) :
+    (sendRun ops).released.Nodup ∧
+    ∀ m, m ∈ (sendRun ops).released ↔ (m < (sendRun ops).nextMsg ∧ cnt (sendRun ops).window m = 0) :=
+  ⟨(sendRun_relInv ops).nodup, (sendRun_relInv ops).rel⟩
 
 /-! ## Sender + lossy, duplicating, reordering network + receiver: every schedule -/
 
